@@ -46,7 +46,7 @@ theorem uReserve_post {s : State} (inv : Inv s) {h : Nat} (hlt : h < s.hs.length
     obtain ⟨dp, ab⟩ := attach_fresh_flags inv hlt hh (n * k.t.size) (if k.unique then 2 else 0) (some k.t) pt
       (by cases k.unique <;> simp [Buf.immutable, State.fresh])
     obtain ⟨z, o, zs, zt⟩ := dp.own
-    obtain ⟨inv1, len1, oth1, hh1, z', hz', _, _, _, _, kk, _, zc⟩ := dp
+    obtain ⟨inv1, len1, oth1, hh1, z', hz', _, _, _, _, kk, _, zc, _⟩ := dp
     refine ⟨inv1, len1, oth1, _, z, n * k.t.size, o, zs, zt, Nat.le_refl _, ?_⟩
     have e : z' = z := by have := o.hb; rw [hz'] at this; exact Option.some.inj this
     rw [← e, zc, ab]
@@ -63,7 +63,7 @@ theorem uReserve_post {s : State} (inv : Inv s) {h : Nat} (hlt : h < s.hs.length
     | ok s1 nb =>
       have dp : DetachPost s h x (n * k.t.size) s1 nb := es
       obtain ⟨z, o, zs, zt⟩ := dp.own
-      obtain ⟨inv1, len1, oth1, _, z', hz', _, _, _, _, m, hm, zc⟩ := dp
+      obtain ⟨inv1, len1, oth1, _, z', hz', _, _, _, _, m, hm, zc, _⟩ := dp
       have e : z' = z := by have := o.hb; rw [hz'] at this; exact Option.some.inj this
       refine ⟨inv1, len1, oth1, nb, z, m, o, zs, zt.trans xt, hm, ?_⟩
       rw [← e, zc, State.abs_of hh hb]
@@ -90,7 +90,7 @@ theorem uDetach_sem {s : State} (inv : Inv s) {h : Nat} (hlt : h < s.hs.length) 
     simp only [xCreate]
     obtain ⟨dp, ab⟩ := attach_fresh_flags inv hlt hh (0 - 0 % k.t.size) (if k.unique then 2 else 0) (some k.t) pt
       (by cases k.unique <;> simp [Buf.immutable, State.fresh])
-    obtain ⟨inv1, len1, oth1, hh1, z', hz', _, _, _, _, kk, _, zc⟩ := dp
+    obtain ⟨inv1, len1, oth1, hh1, z', hz', _, _, _, _, kk, _, zc, _⟩ := dp
     refine ⟨inv1, len1, ?_, oth1⟩
     rw [State.abs_of hh1 hz', zc, ab]
     simp [State.fresh, Buf.content]
